@@ -284,7 +284,7 @@ theorem extAfterBase_of_check (l : List Spec.Msg.SField) (h : (l.dropWhile (!·.
 
 /-- what `init` has established when it succeeds -/
 theorem init_ok (st : GoStruct) (rw : RW) (h : Msg.init st = .ok rw) :
-    st.name.startsWith "Message" = true ∧ ∃ fs, initFields 0 st.fields = .ok fs ∧ extOrderOk fs = true ∧
+    Msg.hasMsgPrefix st.name = true ∧ ∃ fs, initFields 0 st.fields = .ok fs ∧ extOrderOk fs = true ∧
       sizeTotal fs ≤ 255 ∧ rw = mkRW st fs := by
   unfold Msg.init at h
   split at h
